@@ -57,8 +57,8 @@ def namespace():
     if _ns is None:
         repo_on_path()
         import cohdl
-        from cohdl import Bit, BitVector, Unsigned, Signed
-        _ns = {'cohdl': cohdl, 'Bit': Bit, 'BitVector': BitVector, 'Unsigned': Unsigned, 'Signed': Signed}
+        from cohdl import Bit, BitVector, Unsigned, Signed, Null, Full
+        _ns = {'cohdl': cohdl, 'Bit': Bit, 'BitVector': BitVector, 'Unsigned': Unsigned, 'Signed': Signed, 'Null': Null, 'Full': Full}
     return _ns
 
 
